@@ -188,7 +188,7 @@ pub fn run(run: &Run) {
          quick = all 2^18 values of bits 0-17 x 1024 patterns of bits 18-31 (268 M words), thorough = all 2^32 words; acceptance must equal the \
          reference predicate (exactly one of BOOL/SINT/UINT/FLOA/STRG/RAWD among bits 4-10, TYLE 1..5 for integers, 3..4 for fixed point and float), \
          accepted words re-encode to a word that decodes to the same description, differs only in unused bits, same in both byte orders up to \
-         reversal; non-trivial = every HTYP/MSIN byte and every accepted type-info word; cases are distinct by construction",
+         reversal; every word of the low 18 bits is also decoded directly after each of its one-bit neighbours (history independence); non-trivial = every HTYP/MSIN byte and every accepted type-info word; cases are distinct by construction",
     );
     run.assume("the bit layout tables (model.rs message_type_of, refcodec.rs decode_type) are written from the AUTOSAR PRS and are the trusted reference");
     run.regressions(&replay);
@@ -261,6 +261,37 @@ pub fn run(run: &Run) {
         }
         if b == 0 {
             rep.sample = Some(json!({"type_info_words": format!("{:#x}..={:#x}", upper << 18, (upper << 18) | 0x3ffff)}));
+        }
+        rep
+    });
+    // call histories: decoding is a pure function of the word, so a word must be judged the same way whatever was
+    // decoded just before — every word of the low 18 bits is decoded directly after each of its 32 one-bit neighbours
+    // and after itself (64 blocks of 4096 words)
+    run.enumerate("type-info-after-neighbour", 64, false, |b| {
+        let mut rep = BlockReport::default();
+        let res = guard(|| {
+            for low in (b as u32) * 4096..(b as u32 + 1) * 4096 {
+                for bit in 0..33u32 {
+                    let first = if bit == 32 { low } else { low ^ (1 << bit) };
+                    if let Err(v) = check_type_info(first) {
+                        return Err((first, low, v));
+                    }
+                    if let Err(v) = check_type_info(low) {
+                        return Err((first, low, v));
+                    }
+                }
+            }
+            Ok(())
+        });
+        rep.evaluations = 4096 * 33 * 2;
+        rep.nontrivial = 4096 * 33;
+        match res {
+            Ok(Ok(())) => {}
+            Ok(Err((first, w, v))) => rep.violation = Some((json!({"history": [format!("{:#010x}", first), format!("{:#010x}", w)], "TypeInfo": w}), Violation::new(v.sig.clone(), format!("after decoding {:#010x}: {}", first, v.msg)))),
+            Err(p) => rep.violation = Some((json!({"block": b}), Violation::from_panic("type-info history enumeration", &p))),
+        }
+        if b == 1 {
+            rep.sample = Some(json!({"pairs": "(w ^ 1<<bit, w) for every w in 0x1000..0x2000 and bit 0..32"}));
         }
         rep
     });
